@@ -5,6 +5,7 @@
 package chainsim
 
 import (
+	"strings"
 	"context"
 	"fmt"
 	"math/big"
@@ -68,6 +69,9 @@ const (
 	TxCreateFail
 	TxCreateDirect // contract creation transaction: the deployed code's length depends on the recipe
 	TxExtSize      // a contract that stores EXTCODESIZE of an address a creation transaction may have deployed to
+	// (kinds added later go below: recorded plans hold kind numbers)
+	TxSelfDestructLoop // one transaction calls a self-destructing contract three times (value 0, callvalue, 0)
+	TxFundDealloc      // plain transfer to an address of the HF4 de-allocation list
 	numTxKinds
 )
 
@@ -117,6 +121,11 @@ var (
 	codeCreate     = common.FromHex("366000600037" + "36600060" + "00f000") // CREATE(0, mem[0:cds]) with init code = calldata
 	// CALL(forwarder...) is approximated by: CALL(gas, calldata[0], callvalue,0,0,0,0) then REVERT
 	codeCallThenRevert = common.FromHex("600060006000600034600035" + "5af150" + "60006000fd")
+	// mem[0:32] = calldata[32:64]; then CALL(gas, calldata[0], v, 0, 32, 0, 0) for v = 0, callvalue, 0
+	codeSelfDestrLoop = common.FromHex("60206020600037" +
+		"6000600060206000" + "6000" + "6000355af150" +
+		"6000600060206000" + "34" + "6000355af150" +
+		"6000600060206000" + "6000" + "6000355af150" + "00")
 )
 
 func codeLog(n int) []byte {
@@ -130,7 +139,12 @@ func codeLog(n int) []byte {
 }
 
 func contractAddr(name string) common.Address {
-	return common.BytesToAddress(refmodel.Keccak([]byte("verif-contract-" + name))[12:])
+	a := common.BytesToAddress(refmodel.Keccak([]byte("verif-contract-" + name))[12:])
+	if strings.HasPrefix(name, "logb") {
+		// the second family of emitters lives at addresses with leading zero bytes
+		a[0], a[1] = 0, 0
+	}
+	return a
 }
 
 func keyFor(i int) *btcec.PrivateKey {
@@ -207,6 +221,7 @@ func Build(r *Recipe) (u *Universe, err error) {
 	add("create", codeCreate, 0)
 	add("callrevert", codeCallThenRevert, 0)
 	add("extsize", common.FromHex("6000353b60005500"), 0) // SSTORE(0, EXTCODESIZE(calldata[0]))
+	add("sdloop", codeSelfDestrLoop, 0)
 	for n := 0; n <= 4; n++ {
 		add(fmt.Sprintf("log%d", n), codeLog(n), 0)
 		add(fmt.Sprintf("logb%d", n), codeLog(n), 0) // second emitter with the same behaviour
@@ -289,7 +304,11 @@ func addrWord(a common.Address) []byte { return common.LeftPadBytes(a.Bytes(), 3
 
 // TopicFor derives a small universe of topic values so that filters hit.
 func TopicFor(seed uint64) common.Hash {
-	return common.BytesToHash(refmodel.Keccak([]byte(fmt.Sprintf("topic-%d", seed%7))))
+	h := common.BytesToHash(refmodel.Keccak([]byte(fmt.Sprintf("topic-%d", seed%7))))
+	if seed%7 == 6 {
+		h[0], h[1], h[2] = 0, 0, 0 // one topic value with leading zero bytes
+	}
+	return h
 }
 
 // makeTx turns a tx recipe into a signed transaction for the given nonce.
@@ -355,6 +374,16 @@ func (u *Universe) makeTx(tr *TxRecipe, nonce uint64, number *big.Int) (*types.T
 		gas = 90000
 		target := crypto.CreateAddress(to, tr.B%3)
 		tx = types.NewTransaction(nonce, u.Contracts["extsize"], val, gas, price, addrWord(target))
+	case TxSelfDestructLoop:
+		gas = 300000
+		ben := to
+		if tr.B%2 == 1 {
+			ben = common.BytesToAddress(refmodel.Keccak(word(tr.B + 77))[12:]) // fresh address
+		}
+		tx = types.NewTransaction(nonce, u.Contracts["sdloop"], val, gas, price, append(addrWord(u.Contracts[fmt.Sprintf("sd%d", tr.A%4)]), addrWord(ben)...))
+	case TxFundDealloc:
+		gas = 21000
+		tx = types.NewTransaction(nonce, common.HexToAddress(HF4Addrs[int(tr.A)%4]), val, gas, price, nil)
 	case TxCreateFail:
 		gas = 150000
 		// direct contract creation whose init code reverts / runs an invalid opcode
